@@ -911,6 +911,10 @@ def judge_load(ctx, repo, rec, mout, label):
         ctx.observe("load.event", a[0] + (":" + a[1] if len(a) > 1 else ""))
     if ctrl.unknown:
         ctx.tie_failure("correspondence", "git call not in the modelled protocol", ctrl.unknown[:5], cj)
+    late = [p for ph, pts in ctrl.points.items() if ph != 1 for p in pts]
+    if late:
+        ctx.tie_failure("correspondence", "loader stage outside the temporary worktree",
+                        {"what": "the model runs every loader stage inside `with tmp_worktree`; these ran after the cleanup", "stages": late[:5]}, cj)
     if case.get("inspect") and rec["outcome"][0] == "returned" and not ctrl.dirty_at_remove.get(1):
         ctx.tie_failure("harness", "inspection scenario", "forced inspection left no __pycache__ in the checkout: scenario not exercised", cj)
     wrote_planned = any(a[0] == "write" for i, a in case["events"].items() if int(i) < rec["n_points"]) and rec["outcome"][0] == "returned"
@@ -1418,6 +1422,197 @@ def check_location(ctx, n):
         ctx.count("location_cases")
 
 
+# --------------------------------------------------------------------------------------------- facade + private sibling layout
+
+FAC, IMPL = "c20fac", "_c20fac"
+FAC_VERSIONS = [
+    # (tag, parameters of func, extra exported function?)
+    ("f1", ["a", "b"], False),
+    ("f2", ["a"], False),          # breaking with respect to f1: parameter b removed from the re-exported func
+    ("f3", ["a"], True),           # not breaking with respect to f2: a function is added
+]
+
+
+def facade_files(k):
+    tag, params, extra = FAC_VERSIONS[k]
+    names = ["Klass", "func"] + (["added"] if extra else [])
+    public = f'"""Public API {tag}."""\n\nfrom {IMPL} import {", ".join(names)}\nfrom {IMPL}.util import helper\n\n__all__ = {names + ["helper"]!r}\n'
+    impl = [f'"""Private implementation {tag}."""', "", "", f"def func({', '.join(params)}):", f'    """Func at {tag}."""',
+            f"    total = ({', '.join(params)},)", "    return total", "", "", "class Klass:", f'    """Klass at {tag}."""', "",
+            "    def method(self, x):", "        return x"]
+    if extra:
+        impl += ["", "", "def added(z):", "    return z"]
+    util = f'"""Util {tag}."""\n\n\ndef helper(x):\n    """Helper at {tag}."""\n    return [x]\n'
+    return {f"src/{FAC}/__init__.py": public, f"src/{IMPL}/__init__.py": "\n".join(impl) + "\n", f"src/{IMPL}/util.py": util}
+
+
+class FacadeRepo:
+    """`c20fac` re-exports its API from the private sibling `_c20fac` living in the same checkout (Griffe's own layout)."""
+
+    def __init__(self, env):
+        self.env = env
+        self.path = env.root / "facade"
+        shutil.rmtree(self.path, ignore_errors=True)
+        self.path.mkdir(parents=True)
+        git(self.path, "init", "-q", "-b", "main", ".")
+        for k, (tag, _p, _e) in enumerate(FAC_VERSIONS):
+            for rel, text in facade_files(k).items():
+                f = self.path / rel
+                f.parent.mkdir(parents=True, exist_ok=True)
+                f.write_text(text)
+            date = f"2021-01-{k + 1:02d}T00:00:00 +0000"
+            e = dict(os.environ, GIT_AUTHOR_DATE=date, GIT_COMMITTER_DATE=date)
+            git(self.path, "add", "-A", env=e)
+            git(self.path, "commit", "-q", "-m", tag, env=e)
+            git(self.path, "tag", tag)
+        git(self.path, "branch", "feat/fac", "f2")
+
+    def spec(self):
+        return {"facade": True}
+
+    def version_of_ref(self, ref):
+        return {"f1": 0, "f2": 1, "f3": 2, "feat/fac": 1, "HEAD": 2, "main": 2}[ref]
+
+
+def facade_member_problems(repo, obj, ref, env):
+    """Every public member, through its alias, must give the lines git holds for that reference — after cleanup."""
+    problems = []
+    k = repo.version_of_ref(ref)
+    for name in obj.exports or []:
+        name = str(name)
+        try:
+            m = obj.members[name]
+            rel = f"src/{IMPL}/util.py" if name == "helper" else f"src/{IMPL}/__init__.py"
+            shown = git(repo.path, "show", f"{ref}:{rel}").stdout
+            if shown != facade_files(k)[rel]:
+                problems.append(f"generator: git show {ref}:{rel} differs from the generated text")
+            lines = shown.split("\n")
+            node = next(n for n in ast.parse(shown).body if getattr(n, "name", None) == name)
+            want_lines = lines[node.lineno - 1:node.end_lineno]
+            if not m.is_alias:
+                problems.append(f"{name}: not an alias")
+            got_lines = list(m.lines)
+            if got_lines != want_lines:
+                problems.append({"member": name, "lines": got_lines[:3], "expected": want_lines[:3]})
+            if m.source != textwrap.dedent("\n".join(want_lines)):
+                problems.append({"member": name, "source": m.source[:80]})
+            if (m.lineno, m.endlineno) != (node.lineno, node.end_lineno):
+                problems.append({"member": name, "lineno": [m.lineno, m.endlineno], "expected": [node.lineno, node.end_lineno]})
+            fp = str(m.filepath)
+            if not fp.startswith(str(env.tmp)) or os.path.exists(fp):
+                problems.append({"member": name, "filepath": fp, "exists": os.path.exists(fp)})
+            if name == "func" and [p.name for p in m.parameters] != FAC_VERSIONS[k][1]:
+                problems.append({"member": name, "parameters": [p.name for p in m.parameters]})
+        except Exception as e:  # noqa: BLE001 - AliasResolutionError and friends are exactly what must not happen
+            problems.append({"member": name, "raised": type(e).__name__, "message": str(e)[:160]})
+    if sorted(map(str, obj.exports or [])) != sorted(["Klass", "func", "helper"] + (["added"] if FAC_VERSIONS[k][2] else [])):
+        problems.append({"exports": sorted(map(str, obj.exports or []))})
+    return problems
+
+
+def raw_observe(path, env):
+    return {"head": git(path, "rev-parse", "HEAD").stdout + git(path, "symbolic-ref", "-q", "HEAD", check=False).stdout,
+            "refs": git(path, "for-each-ref", "--format=%(refname) %(objectname)").stdout,
+            "status": git(path, "status", "--porcelain", "--untracked-files=all").stdout,
+            "worktrees": git(path, "worktree", "list", "--porcelain").stdout, "tmp": env.tmp_listing()}
+
+
+def facade_load_case(ctx, env, repo, case):
+    import griffe
+    cj = dict(case, repo=repo.spec(), kind="facade-load")
+    ctrl = Control(env, {}, {1: {int(k): v for k, v in case.get("events", {}).items()}}, {})
+    before = raw_observe(repo.path, env)
+    os.chdir(repo.path)
+    obj, out = None, None
+    with injected(ctrl):
+        try:
+            with watchdog(60):
+                obj = griffe.load_git(FAC, ref=case["ref"], repo=str(repo.path), search_paths=["src"], extensions=griffe.load_extensions(make_extension(ctrl)),
+                                      resolve_aliases=True, resolve_external=case["resolve_external"])
+            out = "returned"
+        except BaseException as e:  # noqa: BLE001
+            out = exc_name(e)
+    os.chdir(env.cwd)
+    after = raw_observe(repo.path, env)
+    ctx.case(cj, True)
+    ctx.observe("facade.load", f"{out}/external={case['resolve_external']}")
+    if before != after:
+        ctx.property_failure(cj, {"what": "repository not restored (facade layout)", "diff": diff_obs(before, after)})
+        for name in os.listdir(env.tmp):
+            shutil.rmtree(env.tmp / name, ignore_errors=True)
+    late = [p for ph, pts in ctrl.points.items() if ph != 1 for p in pts]
+    if late:
+        ctx.tie_failure("correspondence", "loader stage outside the temporary worktree",
+                        {"what": "the model runs every loader stage inside `with tmp_worktree`; these ran after the cleanup", "stages": late[:5]}, cj)
+    want = "Injected" if any(a[0] == "raise" for a in case.get("events", {}).values()) else "returned"
+    if out != want:
+        ctx.property_failure(cj, {"what": "load_git outcome on the facade layout", "got": out, "expected": want})
+    if obj is not None:
+        probs = facade_member_problems(repo, obj, case["ref"], env)
+        if probs:
+            ctx.property_failure(cj, {"what": "re-exported members not usable after the checkout was removed", "problems": probs[:4]})
+    ctx.count("facade_cases")
+
+
+def facade_check_case(ctx, env, repo, against, base, cli_mode):
+    cj = {"kind": "facade-check", "repo": repo.spec(), "against": against, "base": base, "cli": cli_mode}
+    ko, kn = repo.version_of_ref(against), repo.version_of_ref(base or "HEAD")
+    want = 1 if FAC_VERSIONS[ko][1] != FAC_VERSIONS[kn][1] and set(FAC_VERSIONS[ko][1]) - set(FAC_VERSIONS[kn][1]) else 0
+    before = raw_observe(repo.path, env)
+    if cli_mode:
+        cmd = [sys.executable, "-m", "griffe", "check", FAC, "-s", "src", "-a", against] + (["-b", base] if base else [])
+        p = _real_run(cmd, cwd=repo.path, capture_output=True, text=True, timeout=120, env=dict(os.environ, NO_COLOR="1"))
+        rc, err = p.returncode, p.stderr
+    else:
+        import _griffe.cli as cli
+        buf = io.StringIO()
+        saved = (sys.stdout, sys.stderr)
+        os.chdir(repo.path)
+        try:
+            sys.stderr = buf
+            with watchdog(90):
+                rc = cli.check(FAC, against, base_ref=base, search_paths=["src"], color=False)
+        except BaseException as e:  # noqa: BLE001
+            rc = "raised:" + exc_name(e)
+        finally:
+            try:
+                import colorama.initialise as ci
+                ci.deinit()
+                ci.orig_stdout = ci.orig_stderr = ci.wrapped_stdout = ci.wrapped_stderr = None
+            except Exception:  # noqa: BLE001
+                pass
+            sys.stdout, sys.stderr = saved
+            os.chdir(env.cwd)
+        err = buf.getvalue()
+    after = raw_observe(repo.path, env)
+    ctx.case(cj, True)
+    ctx.observe("facade.check", f"{'cli' if cli_mode else 'api'}:{want}")
+    if before != after:
+        ctx.property_failure(cj, {"what": "repository not restored by check (facade layout)", "diff": diff_obs(before, after)})
+    if rc != want:
+        ctx.property_failure(cj, {"what": "exit code of check on a re-exported object", "got": rc, "expected": want, "stderr": err[-400:]})
+    elif want:
+        locs = [l.split(":")[0] for l in err.splitlines() if ": " in l and l.split(":")[0].endswith(".py")]
+        if f"src/{IMPL}/__init__.py" not in locs:
+            ctx.property_failure(cj, {"what": "breakage does not name the changed file", "stderr": err[-400:], "expected": f"src/{IMPL}/__init__.py"})
+    ctx.count("facade_cases")
+
+
+def facade_checks(ctx, env, repo=None):
+    repo = repo or FacadeRepo(env)
+    for ref in ["f1", "f2", "f3", "feat/fac"]:
+        for ext in (None, True):
+            facade_load_case(ctx, env, repo, {"ref": ref, "resolve_external": ext})
+    facade_load_case(ctx, env, repo, {"ref": "f1", "resolve_external": None, "events": {"2": ["write"]}})
+    facade_load_case(ctx, env, repo, {"ref": "f2", "resolve_external": True, "events": {"5": ["raise", "Injected"]}})
+    for against, base in (("f1", "f2"), ("f2", "f3"), ("f1", None), ("feat/fac", "f3")):
+        facade_check_case(ctx, env, repo, against, base, cli_mode=False)
+    facade_check_case(ctx, env, repo, "f1", "f2", cli_mode=True)
+    if not ctx.quick:
+        facade_check_case(ctx, env, repo, "f2", "f3", cli_mode=True)
+        facade_check_case(ctx, env, repo, "f1", None, cli_mode=True)
+
+
 # --------------------------------------------------------------------------------------------- witnesses of the known findings
 
 def witness_f2(env, repo):
@@ -1604,6 +1799,8 @@ def explore(ctx):
             ctx.tie_failure("correspondence", "not a repository: outcome", {"model": mo[1], "impl": out})
         if env.tmp_listing() != before_tmp or os.listdir(notrepo):
             ctx.property_failure({"kind": "not-a-repository"}, {"what": "something left behind", "tmp": env.tmp_listing(), "dir": os.listdir(notrepo)})
+        # public API re-exported from a private sibling in the same checkout
+        facade_checks(ctx, env)
         # normalize, location
         check_normalize(ctx, ctx.budget(300, 3000))
         check_location(ctx, ctx.budget(300, 3000))
@@ -1637,6 +1834,9 @@ def search(ctx):
             raise ModelUnavailable("search runs without the model")
         ctx.model = no_model
         try:
+            facade_checks(ctx, env)
+            if ctx.prop_failures:
+                return
             for i in range(3):
                 repo = Repo(ctx.seed + 1000, i, env, [{"layout": "src"}, {"layout": "."}, {}][i])
                 pool = repo.ref_pool()
@@ -1667,8 +1867,22 @@ def replay(ctx, data):
         with Env(ctx) as env:
             assert_safe(env)
             spec = case["repo"]
-            repo = Repo(spec["seed"], spec["idx"], env, spec.get("profile"))
             kind = case.get("kind")
+            if spec.get("facade"):
+                frepo = FacadeRepo(env)
+                if kind == "facade-load":
+                    facade_load_case(ctx, env, frepo, {k: v for k, v in case.items() if k not in ("repo", "kind")})
+                else:
+                    facade_check_case(ctx, env, frepo, case["against"], case["base"], case["cli"])
+                print(json.dumps({k: v for k, v in case.items() if k != "repo"}))
+                for f in ctx.prop_failures:
+                    print("FAILS  :", json.dumps(f["detail"], default=str)[:1200])
+                for f in ctx.tie_failures:
+                    print("TIE    :", f["name"], json.dumps(f["detail"], default=str)[:400])
+                if not ctx.prop_failures and not ctx.tie_failures:
+                    print("holds on this tree")
+                return 0
+            repo = Repo(spec["seed"], spec["idx"], env, spec.get("profile"))
             if kind == "load_git":
                 rec = run_load_case(env, repo, case)
                 print("case    :", json.dumps({k: v for k, v in case.items() if k != "repo"}))
